@@ -118,7 +118,31 @@ def dec_oracle(case):
     return (["accepted/%s/v%d/bl%s" % (cls, exp["ver"], "none" if burst is None else len(burst))], nt)
 
 
+def seq_oracle(case):
+    """several messages through the codec in one go, parse_msg() on re-used objects: every step against the layout"""
+    objs = {"tx": tk.new_msg("tx"), "rx": tk.new_msg("rx")}
+    for k, st_ in enumerate(case["steps"]):
+        try:
+            enc_oracle(st_)
+            data = ref_trxd.encode(st_["m"], st_["legacy"])
+            target = objs[st_["m"]["cls"]] if case["reuse"] else tk.new_msg(st_["m"]["cls"])
+            target.parse_msg(bytearray(data) if st_["m"]["cls"] == "rx" else data)
+            got = tk.msg_fields(target)
+            exp = ref_trxd.decode(st_["m"]["cls"], data)
+            for f in ("ver", "tn", "fn") + (("pwr",) if st_["m"]["cls"] == "tx" else ("rssi", "toa256")):
+                if got[f] != exp[f]:
+                    raise Violation("c04:decoder-differs-from-layout:%s:%s" % (st_["m"]["cls"], f), "%r vs %r" % (got[f], exp[f]))
+        except Violation as v:
+            raise Violation(v.sig + ":in-sequence", "message %d of %d (re-use=%s): %s" % (k, len(case["steps"]), case["reuse"], v.msg))
+    return (["seq/%d" % len(case["steps"])], True, {"n": len(case["steps"]), "reuse": case["reuse"]})
+
+
+seq_case = st.fixed_dictionaries({"reuse": st.booleans(),
+                                  "steps": st.lists(st.fixed_dictionaries({"m": S.any_msg(), "legacy": st.booleans()}), min_size=2, max_size=5)})
+
+
 SUBS = [
+    Sub("py_sequences", strategy=seq_case, oracle=seq_oracle, examples={"quick": 500, "thorough": 20000}),
     Sub("py_encoder_vs_layout", strategy=enc_case, oracle=enc_oracle, examples={"quick": 2500, "thorough": 80000}),
     Sub("py_decoder_vs_layout", strategy=datagram(), oracle=dec_oracle, examples={"quick": 4000, "thorough": 160000}),
 ]
